@@ -51,6 +51,25 @@ STD_AXIOMS = {
 PRIMITIVE_PREFIXES = ("PrimInt63.", "PrimFloat.", "Uint63.", "Sint63.")  # kernel primitives, not axioms of ours
 
 
+def _raise_stack_limit():
+    """coqc evaluates generated case files whose list literals can be long: with the usual 8 MiB soft stack limit a long literal ends in
+    `Error: Stack overflow` (seen once at the thorough tier).  Children inherit the limit set here (1 GiB, or the hard limit if lower)."""
+    try:
+        import resource
+        soft, hard = resource.getrlimit(resource.RLIMIT_STACK)
+        want = 1 << 30
+        if hard != resource.RLIM_INFINITY:
+            want = min(want, hard)
+        if soft == resource.RLIM_INFINITY or soft >= want:
+            return
+        resource.setrlimit(resource.RLIMIT_STACK, (want, hard))
+    except Exception:  # noqa: BLE001
+        pass
+
+
+_raise_stack_limit()
+
+
 def sh(cmd, timeout=600, cwd=None, env=None, input=None):
     """Run a command, return (rc, stdout, stderr); rc=124 on timeout."""
     try:
